@@ -35,4 +35,5 @@ func C16(r *ev.Run) {
 	r.Floor("non-empty-proposals-checked", 500)
 	r.Floor("notifications-to-waiting-primary", 200)
 	r.Floor("subscriptions", 500)
+	r.Floor("waiting-primaries-with-transaction-checked", 300)
 }
